@@ -433,7 +433,7 @@ impl<'l, F: AsFd> Async<'l, F> {
         Ok(was_nonblocking)
 //@ endslice
 
-//@ slice src/io.rs / impl Async<'l, F> / fn new :: stmts <<let mut sources = inner.sources.borrow_mut();>> .. <<dispatcher.borrow_mut().token =>> props=C01,C06,C17 name=Async::new::slot_step
+//@ slice src/io.rs / impl Async<'l, F> / fn new :: stmts <<{ let mut sources = inner.sources.borrow_mut();>> .. <<{ let mut sources = inner.sources.borrow_mut();>> props=C01,C06,C17,C15,C16 name=Async::new::slot_step
 //@ rw R10 * <<inner.sources.borrow_mut()>> => <<sources_cell>>
 //@ rw R10 * <<dispatcher.borrow_mut()>> => <<disp_cell>>
 //@ rw R15 1 <<Some(dispatcher.clone())>> => <<Some(unsize_io_dispatcher::<Data>(dispatcher.clone()))>>
@@ -479,7 +479,7 @@ impl<'l, F: AsFd> Async<'l, F> {
         dispatcher
 //@ endslice
 
-//@ slice src/io.rs / impl Async<'l, F> / fn new :: stmts <<if let Err(err) = unsafe { inner.register(&dispatcher) }>> .. <<dispatcher.borrow_mut().is_registered =>> props=C15,C16,C17 name=Async::new::register_step
+//@ slice src/io.rs / impl Async<'l, F> / fn new :: stmts <<if let Err(err) = unsafe { inner.register(&dispatcher) }>> ..< <<let inner: Rc<dyn IoLoopInner + 'l> =>> props=C15,C16,C17 name=Async::new::register_step
 //@ rw R10 * <<dispatcher.borrow_mut()>> => <<disp_cell>>
 //@ sig
     /// S1 slice of Async::new: the statement that registers the freshly built dispatcher and cleans up if that fails,
